@@ -29,10 +29,14 @@ def need(prog, qname):
 
 
 # ----------------------------------------------------------------------------- PATTERN
-def pattern_entries(prog, rep, entries, rule="PAT", not_charged=(), allow_raw=()):
+def pattern_entries(prog, rep, entries, rule="PAT", not_charged=(), allow_raw=(), any_graph=False):
     """entries: [(qname, matrix parameter)].  One obligation per entry (result / decisions are
-    pattern-only) and one violation per value-sensitive root expression."""
+    pattern-only) and one violation per value-sensitive root expression.  any_graph: the matrix is an arbitrary weighted graph
+    (opposite entries of any signs), not a DAG / binary PDAG - `(A + A.T) != 0` is then value-sensitive (cancelling two-cycles)."""
     P = PT.Pattern(prog)
+    if any_graph:
+        from .. import signs as _signs
+        P.pairs = _signs.ALL_PAIRS
     objs = {}
     for q, param in entries:
         f = need(prog, q)
@@ -664,3 +668,45 @@ def negative_zero_slices(rep, prog, qnames, rule="SLICE.minus-zero"):
                         rep.bad(rule, w, "for %s = 0 the bound -0 is 0: the slice is the whole sequence (lower bound) / empty (upper bound), not the last 0 items" % _ast.unparse(b.operand))
     if not n:
         rep.ok(rule, fwhere(need(prog, qnames[0])), "no slice bound of the form -(variable)")
+
+
+def decorator_slots(rep, prog, interps):
+    """DECOR.slots - a wrapper may validate, convert or log, but the value the caller passed *as parameter p* must not arrive
+    unchanged in the slot of another parameter q (swapped order in the wrapper's own signature, kwargs appended in call order,
+    an off-by-one when re-packing *args).  Decided from what the undecorated entry point was finally called with, in every
+    call form, by the symbolic interpreter (parameters are symbols there)."""
+    from ..sym import Sym, T as _T
+    seen = set()
+    mism = set()
+    for it in interps:
+        for q, k, rev, why, line in it.signature_mismatch:
+            f = prog.funcs.get(q)
+            if f is None or (q, why) in mism:
+                continue
+            mism.add((q, why))
+            form = "all arguments by position" if k is None else "first %d by position, the others by keyword%s" % (k, " in reverse order" if rev else "")
+            rep.bad("DECOR.signature", fwhere(f), "a call %s accepts (%s) is a TypeError behind its decorator: %s (wrapper at line %d)" % (f.name, form, why, line))
+    for it in interps:
+        if not isinstance(it, Sym):
+            continue
+        for q, calls in it.raw_calls.items():
+            f = prog.funcs.get(q)
+            if f is None:
+                continue
+            pp = f.posparams[1:] if f.is_method else f.posparams
+            for args, kwargs, k, rev in calls:
+                got = {}
+                for p_, a in zip(pp, args):
+                    got[p_] = a
+                got.update(kwargs)
+                for slot, a in got.items():
+                    t = _T(a) if not isinstance(a, tuple) or not a or a[0] != "*" else None
+                    if isinstance(t, tuple) and len(t) == 2 and t[0] == "param" and t[1] in f.params and t[1] != slot and slot in f.params:
+                        key = (q, slot, t[1])
+                        if key in seen:
+                            continue
+                        seen.add(key)
+                        form = "all arguments by position" if k is None else "first %d by position, the others by keyword%s" % (k, " in reverse order" if rev else "")
+                        rep.bad("DECOR.slots", fwhere(f), "behind its decorator(s) %s receives the caller's `%s` as its parameter `%s` (%s)" % (f.name, t[1], slot, form))
+            if calls and not any(k_[0] == q for k_ in seen):
+                rep.ok("DECOR.slots", fwhere(f), "every argument reaches the parameter it was passed for, in %d call(s) through the decorator(s)" % len(calls))
